@@ -82,7 +82,7 @@ m = {
     "hooks": {
         "guard": "verif",
         "enable": "go build -tags verif (check.sh builds harness/cmd/vwork against /repo with -tags verif; -race additionally for C07/C17)",
-        "baseline_off_cmd": "cd /repo && GOFLAGS=-mod=mod GOPROXY=off GOSUMDB=off go test -json -vet=off -count=1 -timeout 25m ./...",
+        "baseline_off_cmd": "cd /repo && GOFLAGS=-mod=mod go test -json -vet=off -count=1 -timeout 25m ./...",
         "source_commits": hook_commits,
         "add_only": True,
     },
